@@ -379,7 +379,7 @@ pub fn record(args: &Args) {
         // C04 is about the compressing builder; elsewhere compression is switched off in a third of the
         // segments (uncompressed SDDs can blow up: those segments are short and small)
         let compress = semantic || mode == "c04" || !rng.chance(1, 3);
-        let tcap = *rng.pick(&[0usize, 0, 1, 2, 4, 16]);
+        let tcap = if mode == "c04" { *rng.pick(&[1usize, 2, 2, 4, 4, 8]) } else { *rng.pick(&[0usize, 0, 1, 2, 4, 16]) };
         let seg_len = if compress { len } else { len.min(30) };
         rsdd::verif::set_table_capacity(tcap);
         out.emit(json!({"ev": "reset", "n0": n, "vtree": vtree_json(&vt), "family": family,
